@@ -346,6 +346,14 @@ class Slicer:
             return e
         # let / expression statement: up to `;` at depth 0 (or end of block = tail expression)
         end = self.stmt_end(k, hi)
+        if self.is_id(k, "self") and self.board_path != ["self"]:
+            e = self.match_path(k, hi, self.board_path)
+            if e is not None and self.next_op(e, hi) == "=":
+                eq = self.sig(e, hi)
+                self.emit_generic(eq + 1, end)
+                self.emit("havoc_board(board);", k)
+                self.notes.setdefault("degraded", []).append(f"{self.cur_fn}: assignment to `{'.'.join(self.board_path)}` at line {s.line_of(s.toks[k].s)}; modelled as an arbitrary change of the board")
+                return end + 1 if end < hi else end
         letname = None
         if self.is_id(k, "let"):
             j = self.sig(k + 1, hi)
@@ -512,6 +520,19 @@ class Slicer:
                                 k = s.match[op] + 1
                                 seg_start = k
                                 handled = True
+                            elif nm < hi and self.is_id(nm) and s.tt(nm) in self.methods and op < hi and s.is_p(op, "("):
+                                # a helper of the same impl that is not sliced: dropped if it provably leaves the board
+                                # alone, otherwise over-approximated by "the board is arbitrary afterwards"
+                                try:
+                                    self.check_method_clean(s.tt(nm), self.cur_fn)
+                                except SliceError as e:
+                                    self.check_tokens(seg_start, k, self.cur_fn)
+                                    self.emit_generic(op + 1, s.match[op])
+                                    self.emit("havoc_board(board);", nm)
+                                    self.notes.setdefault("degraded", []).append(f"{self.cur_fn}: helper `{s.tt(nm)}` is not board-clean ({e}); modelled as an arbitrary change of the board")
+                                    k = s.match[op] + 1
+                                    seg_start = k
+                                    handled = True
                     if handled:
                         continue
                 elif w in ("if", "match", "loop", "while", "for") or (w == "unsafe"):
@@ -634,6 +655,12 @@ pub fn nondet() -> (r: bool) { unimplemented!() }
 pub fn havoc_move(board: &Bitboard) -> (m: Move)
     ensures move_wf(pos_of(*board), m), no_king_capture(pos_of(*board), m), clocks_ok(pos_of(*board))
 { unimplemented!() }
+
+/// OVER-APPROXIMATION used only when a sliced function (or a helper it calls) assigns a new value to the board, which the
+/// slicer cannot follow: afterwards the board is arbitrary.  A unit that contains a call of this function is DEGRADED:
+/// a failing obligation is then reported as a violation only together with a failing input reproduced on the real code.
+#[verifier::external_body]
+pub fn havoc_board(board: &mut Bitboard) { unimplemented!() }
 
 /// Bitboard::is_any_move_legal restores the board (frame part of its contract; body verified verbatim in unit uci_moves)
 #[verifier::external_body]
